@@ -453,6 +453,39 @@ def run_e2e(case, ctx):
                 f.get('reassign_matches_pinned_algorithm') for f in any_flags),
             'layers_with_permuted_counts': sum(
                 1 for f in any_flags if f['chosen_is_sort_permutation_of_original'])})
+    # ---- the refinement applied a second time to its own result: the same three claims hold for
+    # that call, too (no channel below its bit-width before the call, cost not higher)
+    if (case['seed'] // 2) % 2 == 0:
+        _rec['calls'].clear()
+        _rec['evaluated'] = []
+        try:
+            with contextlib.redirect_stdout(io.StringIO()):
+                optimize_prec_assignment(mps, 'ne16')
+        except Exception as e:
+            ctx.violation('refinement-crash', {'sig': 'second-call:' + type(e).__name__,
+                                               'exc': repr(e)[:300], 'w_prec': w_prec,
+                                               'features': prog['features']})
+            return
+        ctx.mon('c20.second_call')
+        with torch.no_grad():
+            mps(mps._input_example)
+            cost_again = float(mps.get_cost('ne16'))
+        again = bits_of(mps.summary())
+        for name, a in after.items():
+            a2 = again.get(name)
+            if a is None or a2 is None:
+                continue
+            dem = [(i, x, y) for i, (x, y) in enumerate(zip(a, a2)) if y < x]
+            if dem:
+                ctx.violation('channel-demotion', {'sig': 'demotion:second-call', 'layer': name,
+                                                   'before': a, 'after': a2, 'demoted': dem[:6]})
+        if cost_again > cost_after * (1 + 1e-6):
+            ctx.violation('cost-increase', {'sig': 'cost:second-call', 'before': cost_after,
+                                            'after': cost_again, 'w_prec': w_prec})
+        for c in _rec['calls']:
+            if c['witness'] is not None:
+                ctx.violation('reassign-counts', dict(c['witness'], sig='counts:second-call'))
+        ctx.cls('e2e-second-call' + ('-changed' if again != after else ''))
     if changed:
         ctx.nontriv(('e2e', case['seed']))
     ctx.cls('e2e-' + ('wide-' if case.get('wide') else '') + ('zero' if case['zero'] else 'nozero') +
